@@ -4,6 +4,7 @@ Every code names one fixed `q!(…)` closure of `harness/hv_hydro/gen_programs.p
 here is its transcription.  Used only by the driver (the theorems quantify over all functions).
 -/
 import HvHydro.Model.Hydro
+import HvHydro.Model.Tick
 namespace HvHydro
 
 def onInt (f : Int → Val) : Val → Val
@@ -120,23 +121,98 @@ def parseTerm : Nat → List String → Option (Term × List String)
     | "sfilter" => un fun t => (predFn arg).map (fun p => .sfilter p t)
     | _ => none
 
+/-- `count()`'s closure -/
+def cntFn : Val → Val → Val := fun a _ => match a with | .int a => .int (a + 1) | a => a
+
+/-- tick-level terms (prefix notation); returns the term and whether its order is unspecified -/
+def parseTTerm : Nat → List String → Option (TTerm × Bool × List String)
+  | 0, _ => none
+  | _, [] => none
+  | fuel + 1, w :: rest =>
+    let (op, arg) := splitTok w
+    let un (mk : TTerm → Option TTerm) : Option (TTerm × Bool × List String) :=
+      match parseTTerm fuel rest with
+      | some (t, u, r) => (mk t).map (fun t' => (t', u, r))
+      | none => none
+    let bin (mk : TTerm → TTerm → TTerm) : Option (TTerm × Bool × List String) :=
+      match parseTTerm fuel rest with
+      | some (a, ua, r) =>
+        match parseTTerm fuel r with
+        | some (b, ub, r') => some (mk a b, ua || ub, r')
+        | none => none
+      | none => none
+    match op with
+    | "b0" => some (.batch 0, false, rest)
+    | "b1" => some (.batch 1, false, rest)
+    | "cyc" => some (.cyc, false, rest)
+    | "map" => un fun t => (mapFn arg).map (fun f => .map f t)
+    | "filter" => un fun t => (predFn arg).map (fun p => .filter p t)
+    | "flatmap" => un fun t => (flatFn arg).map (fun g => .flatMap g t)
+    | "filtermap" => un fun t => (optFn arg).map (fun h => .filterMap h t)
+    | "enumerate" => un fun t => some (.enumerate t)
+    | "unique" => un fun t => some (.unique t)
+    | "sort" => un fun t => some (.sort t)
+    | "scan" => un fun t => (scanFn arg).map (fun s => .scan s.1 s.2 t)
+    | "limit" => un fun t => arg.toNat?.map (fun n => .limit n t)
+    | "fold" => un fun t => (foldFn arg).map (fun a => .fold a.2.1 a.2.2 t)
+    | "reduce" => un fun t => (reduceFn arg).map (fun f => .reduce f t)
+    | "count" => un fun t => some (.fold (.int 0) cntFn t)
+    | "max" => un fun t => (reduceFn "rmax").map (fun f => .reduce f t)
+    | "min" => un fun t => (reduceFn "rmin").map (fun f => .reduce f t)
+    | "first" => un fun t => some (.reduce (fun a _ => a) (.limit 1 t))
+    | "last" => un fun t => some (.reduce (fun _ x => x) t)
+    | "tostream" => un fun t => some t
+    | "kfold" =>
+      match parseTTerm fuel rest with
+      | some (t, _, r) => (foldFn arg).map (fun a => (.kfold a.2.1 a.2.2 t, true, r))
+      | none => none
+    | "chain" => bin .chain
+    | "xsing" => bin .crossSingleton
+    | "join" => bin .joinHalf
+    | "antijoin" => bin .antiJoin
+    | "notin" => bin .difference
+    | "defer" => un fun t => some (.deferTick t)
+    | "across" => un fun t => (foldFn arg).map (fun a => .acrossFold a.2.1 a.2.2 t)
+    | _ => none
+
 def reprKind : Kind → String
   | .sT => "sT" | .sK => "sK" | .sN => "sN" | .bT => "bT"
   | .sing => "sing" | .opt => "opt" | .ksing => "ksing" | .bsing => "bsing"
 
-/-- a program the driver can run: for now a top-level term -/
+/-- a program the driver can run: a top-level term (C28/C29) or a tick program (C30) -/
 inductive Prog where
   | top (t : Term)
+  | tick (p : TProg) (unordered : Bool)
 
+/-- kind used for canonicalising the printed output -/
 def Prog.kind : Prog → Option Kind
   | .top t => t.kind
+  | .tick _ u => some (if u then .sN else .sT)
+
+def Prog.kindName : Prog → Option String
+  | .top t => t.kind.map reprKind
+  | .tick _ u => some (if u then "tN" else "tT")
 
 def Prog.run : Prog → List TickIn → List Batch
   | .top t, ins => HvHydro.run t ins
+  | .tick p _, ins => p.run ins
 
 def parseProg (ws : List String) : Option Prog :=
-  match parseTerm (ws.length + 1) ws with
-  | some (t, []) => some (.top t)
-  | _ => none
+  match ws with
+  | "tick" :: rest =>
+    match parseTTerm (rest.length + 1) rest with
+    | some (o, u, []) => some (.tick ⟨.cyc, o⟩ u)
+    | _ => none
+  | "tcyc" :: rest =>
+    match parseTTerm (rest.length + 1) rest with
+    | some (n, _, r) =>
+      match parseTTerm (r.length + 1) r with
+      | some (o, u, []) => some (.tick ⟨n, o⟩ u)
+      | _ => none
+    | none => none
+  | _ =>
+    match parseTerm (ws.length + 1) ws with
+    | some (t, []) => some (.top t)
+    | _ => none
 
 end HvHydro
